@@ -12,6 +12,11 @@ Decided:
              among them is demanded: flush syncs unconditionally);
              begin_batch stores the options it was given; commit_skip_indexes_inner and finalize_indexes persist
              TOC + header + sync before Ok (typestate is C03).
+  AGREE-C40d the two WAL-growth siblings (grow_wal_region: on-demand growth; ensure_wal_capacity: batch pre-sizing)
+             perform the same ordered step sequence: shift the data region while header.wal_size still holds the OLD
+             size (the shift computes the start of the data from it), then store wal_size / footer_offset / data_end,
+             adjust the TOC offsets, rewrite the TOC, persist the header, sync, reopen the WAL. A sibling that reorders
+             the shift behind the wal_size store moves the wrong byte range.
 Not decided: equality of frames/timeline/search results between the paths (values)."""
 from . import lib
 from .facts import Place, op_place
@@ -34,11 +39,61 @@ def str_consts(fn, ops_pos):
     return out
 
 
+GROWTH_CALLS = ('Memvid::shift_data_for_wal_growth', 'Memvid::adjust_offsets_after_wal_growth', 'Memvid::rewrite_toc_footer', 'persist_header', 'File::sync_all', 'EmbeddedWal::open')
+GROWTH_STORES = (('Header', 'wal_size'), ('Memvid', 'data_end'))
+
+
+def growth_steps(fn):
+    """ordered (by dominance) list of the growth protocol's steps in fn"""
+    ev = []
+    for c in fn.calls():
+        if c.is_(GROWTH_CALLS):
+            ev.append((c.bb, 10 ** 6, c.key.split('::')[-1], c.line))
+    for owner, fld in GROWTH_STORES:
+        for st in lib.field_stores(fn, owner, fld):
+            if st['lhs'].field_owners()[-1] == (owner, fld):
+                ev.append((st['bb'], st['idx'], 'store %s.%s' % (owner, fld), st['line']))
+    def before(a, b):
+        return (a[0] == b[0] and a[1] < b[1]) or (a[0] != b[0] and fn.dominates(a[0], b[0]))
+    return sorted(ev, key=lambda e: sum(1 for o in ev if o is not e and before(o, e)))
+
+
+def growth_siblings(ctx, F):
+    ctx.rule('AGREE-C40d', 'grow_wal_region and ensure_wal_capacity run the same ordered growth steps; the data shift precedes the wal_size store')
+    a = ctx.need('AGREE-C40d', 'Memvid::grow_wal_region')
+    b = ctx.need('AGREE-C40d', 'Memvid::ensure_wal_capacity')
+    if a is None or b is None:
+        return
+    sa, sb = growth_steps(a), growth_steps(b)
+    ctx.touch(a, len(a.blocks))
+    ctx.touch(b, len(b.blocks))
+    ctx.evaluations += len(sa) + len(sb)
+    na, nb = [e[2] for e in sa], [e[2] for e in sb]
+    ctx.floor('AGREE-C40d', min(len(na), len(nb)), 7, 'growth steps per sibling')
+    if na == nb:
+        ctx.ok('AGREE-C40d', b, 'same step sequence in both siblings: ' + ' -> '.join(na))
+    else:
+        k = next((i for i, (x, y) in enumerate(zip(na, nb)) if x != y), min(len(na), len(nb)))
+        ctx.bad('AGREE-C40d', b, 'the growth siblings disagree at step %d: grow_wal_region does [%s], ensure_wal_capacity does [%s]' % (k + 1, ' -> '.join(na), ' -> '.join(nb)),
+                line=(sb[k][3] if k < len(sb) else None), detail='growth-sibling-order')
+    for fn, seq in ((a, sa), (b, sb)):
+        names = [e[2] for e in seq]
+        if 'shift_data_for_wal_growth' in names and 'store Header.wal_size' in names:
+            if names.index('shift_data_for_wal_growth') < names.index('store Header.wal_size'):
+                ctx.ok('AGREE-C40d', fn, 'the data shift runs while header.wal_size still holds the old size')
+            else:
+                ctx.bad('AGREE-C40d', fn, 'header.wal_size is updated before shift_data_for_wal_growth, which derives the start of the data region from it: the bytes between the old and the new '
+                        'WAL end (committed payloads) are not moved', line=seq[names.index('shift_data_for_wal_growth')][3], detail='shift-after-wal-size-store')
+        else:
+            ctx.lost('AGREE-C40d', '%s: shift / wal_size store not found' % fn.key)
+
+
 def run(ctx):
     ctx.rule('FLOW-C40a', 'IngestionDelta.inserted_embeddings of every apply_records caller reaches the vector index builder')
     ctx.rule('AGREE-C40b', 'WAL no-space reasons == reasons matched by append_wal_entry\'s growth arm')
     ctx.rule('MPT-C40c', 'batch protocol: end_batch Ok => flushed, skip_sync cleared, batch_opts = None; begin_batch installs the options')
     F = ctx.facts()
+    growth_siblings(ctx, F)
     callers = [f for f in F.fns.values() if f.calls_to(APPLY)]
     ctx.floor('FLOW-C40a', len(callers), 3, 'callers of apply_records')
     for fn in callers:
